@@ -60,6 +60,9 @@ class FuncRef:
         return "<func {}>".format(self.name)
 
 
+import collections as _collections
+
+
 class Opaque:
     """A value we know by role only (compiled pattern, logger, imported lib symbol)."""
 
@@ -77,7 +80,8 @@ class Mod:
         self.path = path
         self.rel = rel
         self.src = src
-        self.tree = ast.parse(src, filename=path)
+        from .desugar import desugar
+        self.tree = desugar(ast.parse(src, filename=path))
         self.is_pkg = os.path.basename(path) == "__init__.py"
         for node in ast.walk(self.tree):
             for ch in ast.iter_child_nodes(node):
@@ -106,7 +110,7 @@ class Mod:
         visit(self.tree.body, "", None)
 
     def where(self, node):
-        return "{}:{}".format(self.rel, getattr(node, "lineno", 0))
+        return "{}:{}".format(getattr(node, "_origin_rel", None) or self.rel, getattr(node, "lineno", 0))
 
     def func(self, qual):
         f = self.funcs.get(qual)
@@ -486,6 +490,10 @@ class PureEval:
         if isinstance(n, ast.Name):
             v = self.lookup(n.id, env)
             return v
+        if isinstance(n, ast.NamedExpr) and isinstance(n.target, ast.Name):
+            v = self.ev(n.value, env)
+            env[n.target.id] = v
+            return v
         if isinstance(n, ast.Tuple):
             return tuple(self.ev(e, env) for e in n.elts)
         if isinstance(n, ast.List):
@@ -738,6 +746,16 @@ class PureEval:
                     return getattr(obj, f.attr)(*args)
                 except Exception as e:
                     raise Undecided("list.{} failed: {}".format(f.attr, e))
+            if isinstance(obj, _collections.deque) and f.attr in (
+                    "append", "appendleft", "pop", "popleft", "extend", "extendleft", "clear", "copy",
+                    "count", "index", "reverse", "rotate"):
+                for a in args:
+                    if f.attr in ("extend", "extendleft"):
+                        self._need_concrete(a)
+                try:
+                    return getattr(obj, f.attr)(*args)
+                except Exception as e:
+                    raise Undecided("deque.{} failed: {}".format(f.attr, e))
             if isinstance(obj, dict) and f.attr in ("pop",):
                 try:
                     return obj.pop(*args)
@@ -842,6 +860,11 @@ class PureEval:
                             raise Undecided("missing NamedTuple field " + nm)
                 return NTValue([vals[nm] for nm in names], names, fv)
             return Opaque("instance", (fv, args, kwargs, n))
+        if isinstance(fv, Opaque) and fv.kind == "ext" and fv.info == ("collections", "deque") \
+                and len(args) <= 1 and not kwargs:
+            for a in args:
+                self._need_concrete(a)
+            return _collections.deque(*[list(a) for a in args])
         if isinstance(fv, Opaque):
             return Opaque("call", (fv, None, args, kwargs, n))
         raise Undecided("call of " + type(fv).__name__)
@@ -975,6 +998,12 @@ class PureEval:
             raise Undecided("global statement")
         if isinstance(st, ast.Raise):
             raise _Raised(ast.unparse(st.exc) if st.exc is not None else "re-raise")
+        if isinstance(st, ast.Assert):
+            t = self.ev(st.test, env)
+            self._need_concrete(t)
+            if not t:
+                raise _Raised("AssertionError")
+            return
         raise Undecided("statement " + type(st).__name__)
 
 
@@ -1100,7 +1129,16 @@ class RuleBase:
         if not isinstance(cnt, int):
             raise AnalysisError("cannot fold initial _regex_cnt in ctparse/rule.py")
         self.first_id = cnt
-        for mn in self._rule_modules():
+        seen_mods = {"ctparse.rule"}
+        state = {"cnt": cnt}
+
+        def run(mn):
+            """register the rules of module *mn* in the order its body runs: a package module that
+            defines rules and is imported by a rule module runs, whole, at its first import (rules
+            moved to a module that is imported back register there)"""
+            if mn in seen_mods:
+                return
+            seen_mods.add(mn)
             mod = model.mod(mn)
             self.rule_mods.append(mod)
             env = model.env(mn)
@@ -1116,6 +1154,12 @@ class RuleBase:
                         "a module-level function; the rule table cannot be read off the source".format(
                             mod.rel, getattr(n, "lineno", 0)))
             for st in mod.tree.body:
+                if isinstance(st, ast.ImportFrom):
+                    full_ = model.resolve_import(mod, st)
+                    for c_ in [full_] + [full_ + "." + a_.name for a_ in st.names if a_.name != "*"]:
+                        if c_ in model.mods and c_ not in seen_mods and _uses_rule(model.mod(c_)):
+                            run(c_)
+                    continue
                 if not isinstance(st, ast.FunctionDef):
                     continue
                 deco = None
@@ -1131,11 +1175,14 @@ class RuleBase:
                 for p in pats:
                     if p.kind == "regex":
                         if p.value not in self.id_of_text:
-                            self.id_of_text[p.value] = cnt
-                            self.text_of_id[cnt] = p.value
-                            cnt += 1
+                            self.id_of_text[p.value] = state["cnt"]
+                            self.text_of_id[state["cnt"]] = p.value
+                            state["cnt"] += 1
                         p.rid = self.id_of_text[p.value]
                 self.rules.append(Rule(mod, st, pats))
+        for mn in self._rule_modules():
+            run(mn)
+        cnt = state["cnt"]
         self.next_id = cnt
 
     def _pat(self, ev, a):
@@ -1160,6 +1207,14 @@ class RuleBase:
 
     def by_name(self, name):
         return [r for r in self.rules if r.name == name]
+
+
+def _uses_rule(mod):
+    """does the module apply the rule() decorator (or call it) anywhere?"""
+    for n in ast.walk(mod.tree):
+        if isinstance(n, ast.Call) and _callee_name(n.func) == "rule":
+            return True
+    return False
 
 
 def _callee_name(f):
@@ -1192,7 +1247,7 @@ def _rule_map_func(model):
     key = "_inl_rule"
     im = getattr(model, key, None)
     if im is None:
-        im = inlined_module(model.mod("ctparse.rule"))
+        im = inlined_module(model.mod("ctparse.rule"), model)
         setattr(model, key, im)
     f = im.funcs.get("rule._map")
     if f is not None:
